@@ -687,7 +687,7 @@ package serf
 //@   oldlet e := asMemberEvent(raw)
 //@   ensures wf [C17]: wfCoalescer(c)
 //@   # the last occurrence of a name in the event is what is pending for it afterwards
-//@   ensures latest_recorded [C17]: forall(func(i int) bool {
+//@   ensures latest_recorded [C17,C16]: forall(func(i int) bool {
 //@       return 0 <= i && i < len(e.Members) && forall(func(j int) bool { return i < j && j < len(e.Members) ==> e.Members[j].Name != e.Members[i].Name }) ==>
 //@         hasLatest(c, e.Members[i].Name) && c.latestEvents[e.Members[i].Name].Type == e.Type &&
 //@         same(*c.latestEvents[e.Members[i].Name].Member, e.Members[i]) })
@@ -698,7 +698,7 @@ package serf
 //@   loop 1 vars ri=rangeindex int
 //@   loop 1 invariant bounds [C17]: -1 <= ri && ri < len(e.Members)
 //@   loop 1 invariant wf [C17]: wfCoalescer(c)
-//@   loop 1 invariant recorded [C17]: forall(func(i int) bool {
+//@   loop 1 invariant recorded [C17,C16]: forall(func(i int) bool {
 //@       return 0 <= i && i <= ri && forall(func(j int) bool { return i < j && j <= ri ==> e.Members[j].Name != e.Members[i].Name }) ==>
 //@         hasLatest(c, e.Members[i].Name) && c.latestEvents[e.Members[i].Name].Type == e.Type &&
 //@         same(*c.latestEvents[e.Members[i].Name].Member, e.Members[i]) })
